@@ -2,9 +2,11 @@ package main
 
 import (
 	"fmt"
+	"net"
 	"os"
 	"os/exec"
 	"path/filepath"
+	"strconv"
 	"strings"
 	"sync"
 	"syscall"
@@ -188,11 +190,12 @@ func c19Run(e *vh.Env, c c19Case, o *vh.Out) {
 	}
 	// new connections are refused after a graceful shutdown of the server
 	if c.Mode != "stop-only" {
-		before := bes[0].Count() + bes[1].Count()
-		rs := vh.Do(sys.Addr, vh.RawReq{Method: "GET", Target: "/after", TimeoutMs: 5000})
-		// the freed port may already belong to another process: only an answer that involved our backends counts
-		if rs.Status != 0 && bes[0].Count()+bes[1].Count() > before {
-			o.Viol("C19|still-serving", fmt.Sprintf("%s: after shutdown a new request was still proxied (status %d)", ctx, rs.Status), nil)
+		// no request is sent to the freed port (it may already belong to another process, whose accounting a stray
+		// request would disturb): whether this process still listens is read from /proc
+		_, portStr, _ := net.SplitHostPort(sys.Addr)
+		port, _ := strconv.Atoi(portStr)
+		if vh.PidListens(os.Getpid(), port) {
+			o.Viol("C19|still-serving", fmt.Sprintf("%s: after shutdown the proxy listener is still open", ctx), nil)
 		}
 	} else {
 		sys.Srv.Close()
@@ -375,18 +378,29 @@ func init() {
 			exit := make(chan error, 1)
 			go func() { exit <- cmd.Wait() }()
 			addr := fmt.Sprintf("127.0.0.1:%d", cfg.Server.Port)
-			up := false
-			for i := 0; i < 200; i++ {
-				if rs := vh.Do(addr, vh.RawReq{Method: "GET", Target: "/up", TimeoutMs: 500}); rs.Status == 200 {
-					up = true
+			up, exitedEarly := false, false
+			for i := 0; i < 1000; i++ {
+				// only talk to the port once this very process holds it
+				if vh.PidListens(cmd.Process.Pid, cfg.Server.Port) {
+					if rs := vh.Do(addr, vh.RawReq{Method: "GET", Target: "/up", TimeoutMs: 2000}); rs.Status == 200 {
+						up = true
+					}
 					break
+				}
+				select {
+				case <-exit:
+					exitedEarly = true
+					i = 1000
+				default:
 				}
 				time.Sleep(20 * time.Millisecond)
 			}
 			if !up {
-				cmd.Process.Kill()
-				<-exit
-				o.Inconcl("binary did not come up")
+				if !exitedEarly {
+					cmd.Process.Kill()
+					<-exit
+				}
+				o.Inconcl("binary did not come up (its port may have been taken by another process)")
 				return
 			}
 			var sc vh.Script
